@@ -77,6 +77,18 @@ CHECKS = {
                      "NpuOperation list.",
                 note=TB + "; hand model of the emitter tied word for word with the real CommandStreamEmitter; open finding: out-of-range "
                      "fields are masked silently (out_of_range_rejected_refuted)"),
+    "C07": dict(cat="other", ref="7/C07", technique="Coq proofs about hand models of the C brick traversal (reorder) and of the reference stream decoder + per-input correspondence with the real codec (rebuilt from /repo's C sources) + sanitizer build as supporting evidence",
+                text="Partial. Proved for ALL valid configurations: reorder_is_padded_permutation (every source weight of the OHWI volume "
+                     "occurs exactly once in the stream of mlw_encode.c:reorder, everything else is zero padding: depth-first, part-kernel, "
+                     "depthwise, any bit depth, decomposition and block depths), reorder_order_spec (documented nesting order), "
+                     "bitbuf_put_get_roundtrip, decode_total and reader_never_past_buffer for the model of mlw_decode.c. NOT proved: "
+                     "losslessness of the C encoder (palette / GRC search not modelled), the 16-byte multiple, C memory safety - these "
+                     "are checked per input (every coding mode, exhaustive short sequences over small alphabets, all accelerators x "
+                     "bit depth x traversal x dilation; decode_model(encode w) = reorder_model w) and by an ASan/UBSan build of the C "
+                     "sources in the thorough tier. Out-of-range weights are observed at npu_encode_weights / encode_weights / "
+                     "mlw_codec.encode.",
+                note=TB + "; hand models tied by correspondence (0 differences); C int overflow not modelled; the extension is rebuilt "
+                     "from /repo's current C sources into /verif/build/codec for every check"),
     "C08": dict(cat="proof", ref="7/C08", technique="Coq theorems over a Gallina model of the weight/scale tensor layout, address derivation and cache state machine (encode_bias translated from the source every run; codec universally quantified) + correspondence and independent oracles using the reference decoder",
                 text="ranges_aligned_disjoint_ordered, scales_one_record_per_channel (every channel exactly once, under the slice-boundary "
                      "hypothesis; counterexample kept), encode_bias_roundtrip, double_buffer_bounds / single_buffer_bounds, "
